@@ -63,7 +63,10 @@ GlobalsOK(s) ==
 
 Final(s, r) ==
     LET ss == SpecStatus(s, C.fin) IN
-    IF s.exc = "skip" THEN <<"SKIP", "outside the exact domain">>
+    IF s.exc = "skip" THEN
+        \* containment-only cases (C05): the run ended in a documented way with a BareScript value;
+        \* what the value should be is outside the functional model
+        (IF C.containOnly THEN <<"ACCEPT">> ELSE <<"SKIP", "outside the exact domain">>)
     ELSE IF s.exc = "fuel" THEN <<"SKIP", "evaluation fuel">>
     ELSE IF ss = "limit" /\ C.limit = 0 THEN <<"REJECT", "length", "the specified run is longer than the recorded one">>
     ELSE IF ss = "limit" /\ (C.limit > C.fin.cnt + 1) THEN <<"REJECT", "length", "the specified run is longer than the recorded one">>
